@@ -397,6 +397,22 @@ func (c *FnCtx) heapSet(st *State, name, sort, term string) {
 }
 
 func (c *FnCtx) havocHeap(st *State, prefix string) {
+	if prefix == "" {
+		// the produced-keys sets of this activation's ranges over maps are not heap: no call can change them
+		keep := map[string]string{}
+		for _, k := range sortedKeys(c.eng.heapSorts) {
+			if strings.HasPrefix(k, "G$rng.") {
+				if _, have := st.heap[k]; have {
+					keep[k] = st.heap[k]
+				}
+			}
+		}
+		defer func() {
+			for k, t := range keep {
+				st.heap[k] = t
+			}
+		}()
+	}
 	c.nfresh++
 	id := c.nfresh
 	// families declared immutable keep their value: materialise them before the epoch changes
